@@ -54,6 +54,24 @@ def run_program(sg, hist, junk=0):
             y = d(x)
             y.backward(sg.ones_like(y.data))
             out.append(h(y.data, x.grad.data))
+        elif api == "fanout":
+            # one tensor consumed by many operations under different operands of multi-operand ops: its gradient is a sum
+            # of several contributions, and floating-point addition is not associative - the order must not depend on
+            # object addresses / hash seeds / what was allocated before
+            w = sg.randn(5, 4, requires_grad=True)
+            xin = sg.Tensor(np.linspace(-1.3, 0.7, 15, dtype=np.float32).reshape(3, 5) ** 3)
+            live = [sg.randn(3) for _ in range(7)]      # (unrelated live objects)
+            t1 = (xin @ w).sum() * 0.37
+            t2 = (w * w).sum() * 1.13
+            t3 = w.exp().sum() * 0.71
+            t4 = (w * 0.219).sum()
+            t5 = sg.stack([w, w * 1.7, w]).sum() * 0.93
+            loss = ((t1 + t2) + (t3 + t4)) + t5 + sg.concat([w, w * w], 1).mean()
+            loss.backward()
+            opt = sg.optim.SGD([w], lr=0.013, momentum=0.9)
+            opt.step()
+            out.append(h(w.grad.data, w.data, np.array(loss.data)))
+            del live
         elif api == "large":
             # sizes beyond any small-tensor fast path: every random-consuming API on >= 2^16 elements
             d = nn.Dropout(0.3)
